@@ -288,6 +288,27 @@ def run(M, c):
                     got, exp = f"<raised {type(e).__name__}>", None
                 M.check("token", got == exp and bool(got), f"C08/token:{tok}", "localized date format is not the expansion of the locale's format", value=x.isoformat(),
                         locale=loc, got=got, expected=exp, expansion=exp_fmt)
+            if x.tzinfo is not None and i % 2 == 0:
+                # the SAME instant expressed in a far-away zone (equal and hash-equal to x, other wall-clock fields), formatted
+                # right after x with the same tokens and locale
+                try:
+                    x2 = gen.mk(("Asia/Tokyo", "America/Los_Angeles", "Pacific/Kiritimati", "Asia/Kolkata")[i // 2 % 4], inst(x))
+                except Exception:  # noqa: BLE001
+                    x2 = None
+                if x2 is not None and 1000 <= x2.year <= 9999:
+                    M.current = {"k": "tok-same-instant", "value": x2.isoformat(), "first": x.isoformat(), "loc": loc}
+                    for tok in TOKENS:
+                        if tok in ("Z", "ZZ") and (off_us(x2) // US) % 60:
+                            continue
+                        try:
+                            got = x2.format(tok, locale=loc)
+                            exp = ref_token(x2, tok, M.data[loc])
+                            if exp is not None:
+                                M.check("token", got == exp, f"C08/token:{tok}:same-instant-other-zone", "token rendering of a value differs from the reference "
+                                        "after an equal instant in another zone was formatted", value=x2.isoformat(), first=x.isoformat(), token=tok, locale=loc,
+                                        got=got, expected=exp)
+                        except Exception as e:  # noqa: BLE001
+                            M.check("token", False, f"C08/token-raised-{type(e).__name__}:{tok}", "format raised", value=x2.isoformat(), token=tok, locale=loc)
             M.cls("tok", loc, kind, x.hour >= 12, x.month, x.weekday())
             if i < 2:
                 M.sample({"k": "tokens", "value": x.isoformat(), "locale": loc})
@@ -415,7 +436,8 @@ def _roundtrip(M, r, localized):
         tzf = "Z"
     if dflag == "wd" and tzf in ("z", ""):
         tzf = "Z"       # the open finding on `d` moves the date: with an explicit offset no zone rule re-normalises the moved value
-    glue = r.choice((" ", "T", " [at] ", " [the time is] ", ", ", " [xx] ")) if r.random() < 0.5 else " "
+    # (literal text is emitted and matched verbatim, whatever its Unicode normalisation form: decomposed accent, ANGSTROM/OHM SIGN, jamo)
+    glue = r.choice((" ", "T", " [at] ", " [the time is] ", ", ", " [xx] ", " [cafe\u0301] ", " [\u212b\u2126] ", " \u212b ", " [\u1112\u1161\u11ab] ")) if r.random() < 0.5 else " "
     fmt = dform + glue + tform + frac + ((" " + tzf) if tzf else "")
     if localized and "dd" not in fmt and r.random() < 0.35:
         # the weekday name as the very last thing in the string (names that are prefixes of one another: tr Cuma / Cumartesi)
